@@ -34,6 +34,7 @@ class Ctx:
         self.pid, self.tier, self.mutated, self.quiet = pid, tier, mutated, quiet
         self.rules = []
         self._progs = {}
+        self.config_map = dict(x.split('=') for x in os.environ.get('VERIF_CONFIG_MAP', '').split(',') if '=' in x)
         self.t0 = time.time()
         self.functions_analysed = set()
         self.configs = set()
@@ -41,6 +42,7 @@ class Ctx:
         self.selftests = []     # (name, fired:bool)
 
     def prog(self, config='ossl-file', subdirs=('src/lib',)):
+        config = self.config_map.get(config, config)
         k = (config, tuple(subdirs))
         if k not in self._progs:
             mut = None
